@@ -27,6 +27,7 @@ EXTENDS Naturals, Integers, Sequences, FiniteSets, TLC
 CONSTANTS NF,           \* number of functions
           NC,           \* number of families
           MaxRounds,
+          NBlocks,      \* time-limited blocks a unique passes through in one round (sympy_simplify has five in sequence)
           Faults,       \* maximal number of timeouts injected
           Repair        \* TRUE: CheckResults/Unmerge runs at the end (as the code does for compl > 2)
 
@@ -53,17 +54,20 @@ VARIABLES h0, cls0,        \* the original functions (ghost)
           chain,           \* chain[i] : substitutions recorded so far for function i (all rounds, concatenated)
           round, pc,       \* control
           ustr, usym, uadd,\* per unique of the current round: string, sympy object, chain appended this round
+          ustr0,           \* string of each unique at the start of the round (make_changes commits only if it changed)
+          blk,             \* block number the current unique is in
           umatch,          \* umatch[i]: index of function i's unique in the current round
           cur, saved,      \* unique being simplified; <<string, object>> saved at block entry (the handler's copies)
           step,            \* sub-step inside the simplification block
           faults, unmerged
-vars == <<h0, cls0, str, chain, round, pc, ustr, usym, uadd, umatch, cur, saved, step, faults, unmerged>>
+vars == <<h0, cls0, str, chain, round, pc, ustr, usym, uadd, ustr0, blk, umatch, cur, saved, step, faults, unmerged>>
 
-Init == /\ cls0 \in [Fun -> 1..NC] /\ h0 \in [Fun -> G]
+(* the action is by left multiplication, so the first function may be taken in the canonical parametrisation (symmetry reduction) *)
+Init == /\ cls0 \in [Fun -> 1..NC] /\ h0 \in {f \in [Fun -> G] : f[1] = Id}
         /\ str = [i \in Fun |-> <<cls0[i], h0[i]>>]
         /\ chain = [i \in Fun |-> <<>>]
         /\ round = 0 /\ pc = "unique"
-        /\ ustr = <<>> /\ usym = <<>> /\ uadd = <<>> /\ umatch = [i \in Fun |-> 0]
+        /\ ustr = <<>> /\ usym = <<>> /\ uadd = <<>> /\ ustr0 = <<>> /\ blk = 1 /\ umatch = [i \in Fun |-> 0]
         /\ cur = 0 /\ saved = <<>> /\ step = "idle" /\ faults = 0 /\ unmerged = {}
 
 (* (1) unique strings in first-occurrence order, and the match index of every function (utils.get_unique_indexes) *)
@@ -73,7 +77,7 @@ SeqOf(S, n) == IF n > NF THEN <<>> ELSE (IF n \in S THEN <<n>> ELSE <<>>) \o Seq
 UniqIdx == SeqOf(FirstOcc, 1)                       \* function indices of the uniques, in order
 Unique == /\ pc = "unique"
           /\ ustr' = [u \in 1..Len(UniqIdx) |-> str[UniqIdx[u]]]
-          /\ usym' = ustr'
+          /\ usym' = ustr' /\ ustr0' = ustr' /\ blk' = 1
           /\ uadd' = [u \in 1..Len(UniqIdx) |-> <<>>]
           /\ umatch' = [i \in Fun |-> CHOOSE u \in 1..Len(UniqIdx) : str[UniqIdx[u]] = str[i]]
           /\ cur' = 1 /\ pc' = "simplify" /\ step' = "enter"
@@ -83,38 +87,41 @@ Unique == /\ pc = "unique"
 Enter == /\ pc = "simplify" /\ step = "enter" /\ cur <= Len(ustr)
          /\ saved' = <<ustr[cur], usym[cur]>>
          /\ step' = "sym"
-         /\ UNCHANGED <<h0, cls0, str, chain, round, pc, ustr, usym, uadd, umatch, cur, faults, unmerged>>
+         /\ UNCHANGED <<h0, cls0, str, chain, round, pc, ustr, usym, uadd, ustr0, blk, umatch, cur, faults, unmerged>>
 SetSym == /\ pc = "simplify" /\ step = "sym"
           /\ \E hn \in Rules(usym[cur][2]) : usym' = [usym EXCEPT ![cur] = <<usym[cur][1], hn>>]
           /\ step' = "chain"
-          /\ UNCHANGED <<h0, cls0, str, chain, round, pc, ustr, uadd, umatch, cur, saved, faults, unmerged>>
+          /\ UNCHANGED <<h0, cls0, str, chain, round, pc, ustr, uadd, ustr0, blk, umatch, cur, saved, faults, unmerged>>
 AppendChain == /\ pc = "simplify" /\ step = "chain"
                /\ LET g == Mul(Inv(ustr[cur][2]), usym[cur][2]) IN      \* the true substitution of this rewrite
                     uadd' = [uadd EXCEPT ![cur] = IF g = Id THEN @ ELSE Append(@, g)]
                /\ step' = "str"
-               /\ UNCHANGED <<h0, cls0, str, chain, round, pc, ustr, usym, umatch, cur, saved, faults, unmerged>>
+               /\ UNCHANGED <<h0, cls0, str, chain, round, pc, ustr, usym, ustr0, blk, umatch, cur, saved, faults, unmerged>>
 SetStr == /\ pc = "simplify" /\ step = "str"
           /\ ustr' = [ustr EXCEPT ![cur] = usym[cur]]
           /\ step' = "exit"
-          /\ UNCHANGED <<h0, cls0, str, chain, round, pc, usym, uadd, umatch, cur, saved, faults, unmerged>>
+          /\ UNCHANGED <<h0, cls0, str, chain, round, pc, usym, uadd, ustr0, blk, umatch, cur, saved, faults, unmerged>>
 Exit == /\ pc = "simplify" /\ step = "exit"
-        /\ IF cur < Len(ustr) THEN cur' = cur + 1 /\ step' = "enter" /\ pc' = pc
-           ELSE cur' = 0 /\ step' = "idle" /\ pc' = "propagate"
-        /\ UNCHANGED <<h0, cls0, str, chain, round, ustr, usym, uadd, umatch, saved, faults, unmerged>>
+        /\ IF blk < NBlocks THEN blk' = blk + 1 /\ cur' = cur /\ step' = "enter" /\ pc' = pc
+           ELSE IF cur < Len(ustr) THEN blk' = 1 /\ cur' = cur + 1 /\ step' = "enter" /\ pc' = pc
+           ELSE blk' = 1 /\ cur' = 0 /\ step' = "idle" /\ pc' = "propagate"
+        /\ UNCHANGED <<h0, cls0, str, chain, round, ustr, usym, uadd, ustr0, umatch, saved, faults, unmerged>>
 (* the fault: TimeoutException between two sub-steps; handler: str_fun[i] = orig_fun ; sym_fun[i] = orig_sym *)
 Timeout == /\ pc = "simplify" /\ step \in {"sym", "chain", "str"} /\ faults < Faults
            /\ ustr' = [ustr EXCEPT ![cur] = saved[1]]
            /\ usym' = [usym EXCEPT ![cur] = saved[2]]
            /\ faults' = faults + 1 /\ step' = "exit"
-           /\ UNCHANGED <<h0, cls0, str, chain, round, pc, uadd, umatch, cur, saved, unmerged>>
+           /\ UNCHANGED <<h0, cls0, str, chain, round, pc, uadd, ustr0, blk, umatch, cur, saved, unmerged>>
 
 (* (3) replacements to the full list through the match index (do_sympy step 3) and the round log *)
+(* make_changes (simplifier.py:130-153) commits a unique's new string, object and appended chain only if its STRING changed *)
+Committed(u) == ustr[u] # ustr0[u]
 Propagate == /\ pc = "propagate"
              /\ str' = [i \in Fun |-> ustr[umatch[i]]]
-             /\ chain' = [i \in Fun |-> chain[i] \o uadd[umatch[i]]]
+             /\ chain' = [i \in Fun |-> IF Committed(umatch[i]) THEN chain[i] \o uadd[umatch[i]] ELSE chain[i]]
              /\ round' = round + 1
              /\ pc' = IF (\A i \in Fun : ustr[umatch[i]] = str[i]) \/ round + 1 >= MaxRounds THEN "check" ELSE "unique"
-             /\ UNCHANGED <<h0, cls0, ustr, usym, uadd, umatch, cur, saved, step, faults, unmerged>>
+             /\ UNCHANGED <<h0, cls0, ustr, usym, uadd, ustr0, blk, umatch, cur, saved, step, faults, unmerged>>
 
 (* (4) check_results: re-apply the recorded map; a function whose map does not verify becomes its own unique
    with an empty map (un-merge) *)
@@ -126,7 +133,7 @@ CheckResults == /\ pc = "check"
                         /\ chain' = [i \in Fun |-> IF Exact(i) THEN chain[i] ELSE <<>>]
                    ELSE UNCHANGED <<unmerged, str, chain>>
                 /\ pc' = "done"
-                /\ UNCHANGED <<h0, cls0, round, ustr, usym, uadd, umatch, cur, saved, step, faults>>
+                /\ UNCHANGED <<h0, cls0, round, ustr, usym, uadd, ustr0, blk, umatch, cur, saved, step, faults>>
 
 Next == Unique \/ Enter \/ SetSym \/ AppendChain \/ SetStr \/ Exit \/ Timeout \/ Propagate \/ CheckResults
 Spec == Init /\ [][Next]_vars
